@@ -77,6 +77,19 @@ type variant struct {
 	Rot        int    `json:"rot"`        // rotation of the instance order inside a replication set
 	Ring       string `json:"ring"`       // "stub" | "real" (a real ring.Ring whose lookups give the case's replication sets) | "partitions"
 	API        string `json:"api"`        // "DoBatchWithOptions" | "DoBatch" (deprecated wrapper: default spawner, isHTTPStatus4xx)
+	// option / input shapes the specification does not depend on either
+	NilCleanup bool   `json:"nilCleanup"` // Cleanup option left nil ("a noop will be called"): the cleanup count cannot be observed
+	EmptyID    bool   `json:"emptyId"`    // stub ring: InstanceDesc.Id empty for every instance (replicas are told apart by address)
+	Op         string `json:"op"`         // operation handed to DoBatch; the stub ring insists on being asked for that one
+}
+
+var opsByName = map[string]ring.Operation{"Write": ring.Write, "Read": ring.Read, "WriteNoExtend": ring.WriteNoExtend}
+
+func (v variant) op() ring.Operation {
+	if o, ok := opsByName[v.Op]; ok {
+		return o
+	}
+	return ring.Write
 }
 
 type repErr struct {
@@ -89,6 +102,7 @@ func (e *repErr) Error() string { return fmt.Sprintf("replica %d: %s", e.c, e.cl
 var (
 	errCtxCause = errors.New("c10: caller gave up")
 	errGet      = errors.New("c10: ring lookup failed")
+	errWrongOp  = errors.New("c10: the ring was asked for another operation than the caller named")
 )
 
 // stubRing is a ring.DoBatchRing that answers with exactly the replication sets of the case.
@@ -98,6 +112,9 @@ type stubRing struct {
 	rot      int
 	cancelAt int
 	cancel   context.CancelCauseFunc
+	emptyID  bool
+	op       ring.Operation
+	gets     int
 }
 
 func instDesc(i int) ring.InstanceDesc {
@@ -106,8 +123,12 @@ func instDesc(i int) ring.InstanceDesc {
 
 func keyOf(j int) uint32 { return uint32(j) * 1000 } // key of item j (1-based)
 
-func (r *stubRing) Get(key uint32, _ ring.Operation, buf []ring.InstanceDesc, _, _ []string) (ring.ReplicationSet, error) {
+func (r *stubRing) Get(key uint32, op ring.Operation, buf []ring.InstanceDesc, _, _ []string) (ring.ReplicationSet, error) {
 	j := int(key / 1000)
+	r.gets++
+	if op != r.op {
+		return ring.ReplicationSet{}, errWrongOp
+	}
 	if j < 1 || j > r.cfg.NK {
 		return ring.ReplicationSet{}, fmt.Errorf("stub ring: unknown key %d", key)
 	}
@@ -120,7 +141,11 @@ func (r *stubRing) Get(key uint32, _ ring.Operation, buf []ring.InstanceDesc, _,
 	reps := r.cfg.Reps[j-1]
 	n := len(reps)
 	for x := 0; x < n; x++ {
-		buf = append(buf, instDesc(reps[(x+r.rot)%n]))
+		d := instDesc(reps[(x+r.rot)%n])
+		if r.emptyID {
+			d.Id = ""
+		}
+		buf = append(buf, d)
 	}
 	return ring.ReplicationSet{Instances: buf, MaxErrors: r.cfg.MaxErr[j-1]}, nil
 }
@@ -137,7 +162,7 @@ func (r *stubRing) ReplicationFactor() int {
 
 func (r *stubRing) InstancesCount() int {
 	if r.cfg.NoInst {
-		return 0
+		return -r.rot // "InstancesCount <= 0": 0, -1, -2
 	}
 	return r.ni
 }
@@ -348,6 +373,8 @@ type env struct {
 	pool    *concurrency.ReusableGoroutinesPool
 	real    *realRing
 	codes   map[string][]int
+	// spawner "deferred": what o.Go was handed and has not been started yet
+	queue []func()
 }
 
 var curEnv *env // the env whose goroutines may call ring.VerifYield (one case at a time)
@@ -425,7 +452,8 @@ func (e *env) start(pre bool, cancelInGet int) {
 	for i := 1; i <= e.ni; i++ {
 		e.gates[i] = make(chan struct{})
 	}
-	var theRing ring.DoBatchRing = &stubRing{cfg: e.cfg, ni: e.ni, rot: e.v.Rot, cancelAt: cancelInGet, cancel: e.cancel}
+	var theRing ring.DoBatchRing = &stubRing{cfg: e.cfg, ni: e.ni, rot: e.v.Rot, cancelAt: cancelInGet, cancel: e.cancel,
+		emptyID: e.v.EmptyID, op: e.v.op()}
 	keys := make([]uint32, e.cfg.NK)
 	for j := 1; j <= e.cfg.NK; j++ {
 		keys[j-1] = keyOf(j)
@@ -435,6 +463,9 @@ func (e *env) start(pre bool, cancelInGet int) {
 		keys = e.real.keys
 	}
 	opts := ring.DoBatchOptions{Cleanup: func() { e.mu.Lock(); e.cleanups++; e.mu.Unlock() }}
+	if e.v.NilCleanup {
+		opts.Cleanup = nil
+	}
 	if e.v.Classifier == "custom" {
 		opts.IsClientError = func(err error) bool {
 			var r *repErr
@@ -443,10 +474,27 @@ func (e *env) start(pre bool, cancelInGet int) {
 	}
 	switch e.v.Spawner {
 	case "recording":
-		opts.Go = func(f func()) { e.mu.Lock(); e.spawned++; e.mu.Unlock(); go f() }
+		// (a panic inside a function the code spawned - e.g. a nil Cleanup being called - is reported, it must not kill the run)
+		opts.Go = func(f func()) {
+			e.mu.Lock()
+			e.spawned++
+			e.mu.Unlock()
+			go func() {
+				defer func() {
+					if p := recover(); p != nil {
+						e.mu.Lock()
+						e.panicked = p
+						e.mu.Unlock()
+					}
+				}()
+				f()
+			}()
+		}
 	case "pool":
 		e.pool = concurrency.NewReusableGoroutinesPool(2)
 		opts.Go = e.pool.Go
+	case "deferred":
+		opts.Go = func(f func()) { e.mu.Lock(); e.spawned++; e.queue = append(e.queue, f); e.mu.Unlock() }
 	}
 	if pre {
 		e.cancel(errCtxCause)
@@ -461,9 +509,9 @@ func (e *env) start(pre bool, cancelInGet int) {
 		}()
 		var err error
 		if e.v.API == "DoBatch" {
-			err = ring.DoBatch(e.ctx, ring.Write, theRing, keys, e.callback, opts.Cleanup)
+			err = ring.DoBatch(e.ctx, e.v.op(), theRing, keys, e.callback, opts.Cleanup)
 		} else {
-			err = ring.DoBatchWithOptions(e.ctx, ring.Write, theRing, keys, e.callback, opts)
+			err = ring.DoBatchWithOptions(e.ctx, e.v.op(), theRing, keys, e.callback, opts)
 		}
 		e.mu.Lock()
 		e.nret++
@@ -532,6 +580,8 @@ func (e *env) classify(err error) (string, int) {
 		return "ctx", 0
 	case err == errGet:
 		return "get", 0
+	case err == errWrongOp:
+		return "ring-asked-for-another-operation", 0
 	}
 	for c := 1; c <= e.ni; c++ {
 		if e.outErr[c] != nil && err == e.outErr[c] {
@@ -547,6 +597,9 @@ func (e *env) classify(err error) (string, int) {
 // finish unblocks everything that is still held so that the bubble can end.
 func (e *env) finish() {
 	e.cancel(errCtxCause)
+	synctest.Wait()
+	for e.beginQueued(0) {
+	}
 	synctest.Wait()
 	for round := 0; round < 64; round++ {
 		progressed := false
@@ -575,7 +628,30 @@ func (e *env) finish() {
 	synctest.Wait()
 }
 
-// callsSeen: per instance the sorted index list of its invocation, "!" marks instances invoked more than once.
+// beginQueued starts the j-th function the deferred spawner holds; false if there is none.
+func (e *env) beginQueued(j int) bool {
+	e.mu.Lock()
+	if j < 0 || j >= len(e.queue) {
+		e.mu.Unlock()
+		return false
+	}
+	f := e.queue[j]
+	e.queue = append(e.queue[:j:j], e.queue[j+1:]...)
+	e.mu.Unlock()
+	go func() {
+		defer func() {
+			if p := recover(); p != nil {
+				e.mu.Lock()
+				e.panicked = p
+				e.mu.Unlock()
+			}
+		}()
+		f()
+	}()
+	return true
+}
+
+// callsSeen: per instance the index list of its invocation in the order the code passed it, "!" marks instances invoked more than once.
 func (e *env) callsSeen() ([][]int, string) {
 	e.mu.Lock()
 	defer e.mu.Unlock()
@@ -590,7 +666,7 @@ func (e *env) callsSeen() ([][]int, string) {
 			for _, ix := range e.calls[c][0] {
 				out[c-1] = append(out[c-1], ix+1) // the specification numbers keys from 1
 			}
-			sort.Ints(out[c-1])
+			// not sorted: the specification (CalledExactly) hands every replica its indexes in ascending order
 		}
 	}
 	return out, note
@@ -637,8 +713,11 @@ func retName(o obsT) string {
 }
 
 // diff compares an observation with the specification's; "" if equal.
-func diff(b *behaviour, s stepT, got obsT) (field, want, have string) {
+func diff(b *behaviour, s stepT, got obsT, v variant) (field, want, have string) {
 	w := s.Obs
+	if v.NilCleanup {
+		got.Cleaned = w.Cleaned // nothing to observe
+	}
 	switch {
 	case w.Returned != got.Returned || w.Kind != got.Kind:
 		return "return", retName(w), retName(got)
@@ -706,7 +785,7 @@ func runBehaviour(t *testing.T, b *behaviour, v variant, real *realRing) (mm *ab
 			}
 			synctest.Wait()
 			got := e.observe()
-			if f, w, h := diff(b, s, got); f != "" {
+			if f, w, h := diff(b, s, got, v); f != "" {
 				fail(sigOf(b, s, f, w, h), got, s.Obs, fmt.Sprintf("step %d (%s)", i, stepName(s)))
 				break
 			}
@@ -716,9 +795,9 @@ func runBehaviour(t *testing.T, b *behaviour, v variant, real *realRing) (mm *ab
 					fail(b.Grain+":callback-arguments", map[string]any{"calls": seen, "note": note}, b.Calls, "")
 					break
 				}
-				// every callback goes through o.Go (the cleanup goroutine may or may not)
-				if v.Spawner == "recording" && (e.spawned > b.Spawns || (b.Spawns > 0 && e.spawned < b.Spawns-1)) {
-					fail(b.Grain+":spawn-count", e.spawned, fmt.Sprintf("%d or %d", b.Spawns-1, b.Spawns), "")
+				// every replica call and the cleanup waiter go through o.Go
+				if v.Spawner == "recording" && e.spawned != b.Spawns {
+					fail(b.Grain+":spawn-count", e.spawned, b.Spawns, "")
 					break
 				}
 			}
@@ -733,7 +812,7 @@ func runBehaviour(t *testing.T, b *behaviour, v variant, real *realRing) (mm *ab
 			e.finish()
 			got := e.observe()
 			if last.Obs.Returned {
-				if f, w, h := diff(b, stepT{A: "end", Obs: obsT{Returned: true, Kind: last.Obs.Kind, C: last.Obs.C, Cleaned: last.Obs.Cleaned}}, got); f != "" {
+				if f, w, h := diff(b, stepT{A: "end", Obs: obsT{Returned: true, Kind: last.Obs.Kind, C: last.Obs.C, Cleaned: last.Obs.Cleaned}}, got, v); f != "" {
 					fail(sigOf(b, stepT{A: "end"}, f, w, h), got, last.Obs, "after the last step")
 				}
 			}
@@ -746,13 +825,21 @@ func runBehaviour(t *testing.T, b *behaviour, v variant, real *realRing) (mm *ab
 
 func variantFor(n int, seed int64, k int) variant {
 	r := rand.New(rand.NewSource(seed*1000003 + int64(n)*31 + int64(k)))
-	return variant{
+	v := variant{
 		Spawner:    []string{"default", "recording", "pool"}[r.Intn(3)],
 		Classifier: []string{"custom", "default4xx"}[r.Intn(2)],
 		Rot:        r.Intn(3),
 		Ring:       "stub",
 		API:        "DoBatchWithOptions",
+		// (drawn after the older dimensions so that these keep their values for a seed)
+		NilCleanup: r.Intn(8) == 0,
+		EmptyID:    r.Intn(3) == 0,
+		Op:         []string{"Write", "Read", "WriteNoExtend"}[r.Intn(3)],
 	}
+	if v.NilCleanup {
+		v.Spawner = "recording" // the only spawner under which a panic of a spawned function can be caught
+	}
+	return v
 }
 
 func nontrivial(b *behaviour) bool {
@@ -820,7 +907,7 @@ func TestReplay(t *testing.T) {
 			// the same behaviour through the deprecated wrapper DoBatch (every wrapEvery-th behaviour)
 			if !failed && wrapEvery > 0 && len(b.Codes) > 0 && (res.Cases+int(abs.Seed()))%wrapEvery == 0 {
 				v := variantFor(res.Cases, abs.Seed(), 98)
-				v.API, v.Spawner, v.Classifier = "DoBatch", "default", "default4xx"
+				v.API, v.Spawner, v.Classifier, v.NilCleanup = "DoBatch", "default", "default4xx", false
 				wrapRuns++
 				if mm := runBehaviour(t, &b, v, nil); mm != nil {
 					mm.Sig = "DoBatch-wrapper " + mm.Sig
@@ -891,7 +978,7 @@ func TestReplay(t *testing.T) {
 // code -> spec
 
 type traceEv struct {
-	E        string   `json:"e"` // "cancel" | "rel" | "obs"
+	E        string   `json:"e"` // "cancel" | "rel" | "obs" | "begin" (cs[0]: the call whose spawned function was started) | "beginc"
 	Cs       []int    `json:"cs"`
 	Os       []string `json:"os"`
 	Returned bool     `json:"returned"`
@@ -937,7 +1024,12 @@ func raceOne(t *testing.T, b *behaviour, groups [][]stepT, v variant, id int) (t
 				ev := traceEv{E: "rel", Cs: []int{}, Os: []string{}}
 				// set every outcome first, then open the gates back to back: the goroutines race inside record
 				e.mu.Lock()
+				cancelToo := false
 				for _, s := range g {
+					if s.A == "cancel" {
+						cancelToo = true
+						continue
+					}
 					if e.released[s.C] || len(e.calls[s.C]) == 0 {
 						fatal = fmt.Sprintf("instance %d cannot be released", s.C)
 					}
@@ -951,7 +1043,121 @@ func raceOne(t *testing.T, b *behaviour, groups [][]stepT, v variant, id int) (t
 					break
 				}
 				for _, s := range g {
-					close(e.gates[s.C])
+					if s.A == "rel" {
+						close(e.gates[s.C])
+					}
+				}
+				tr.Ev = append(tr.Ev, ev)
+				if cancelToo {
+					// the caller's context ends while the answers are being accounted: nothing but the main goroutine's select
+					// reads it, so "released, then cancelled, then everything runs" explains whatever the real race does
+					e.cancel(errCtxCause)
+					tr.Ev = append(tr.Ev, traceEv{E: "cancel", Cs: []int{}, Os: []string{}})
+				}
+			}
+			synctest.Wait()
+			tr.Ev = append(tr.Ev, obsEv(e.observe()))
+		}
+		e.finish()
+	})
+	return tr, fatal
+}
+
+// raceDeferred: the Go option is a spawner that only queues what it is handed.  The driver then walks a seeded random
+// schedule of: start one queued function (which one it was - a replica call or the cleanup waiter - is learned afterwards
+// from the callback), let begun callbacks return (alone or simultaneously, outcomes as in the behaviour), end the
+// context (if the behaviour does).  Every event is followed by quiescence and an observation.
+func raceDeferred(t *testing.T, b *behaviour, v variant, id int, rng *rand.Rand) (tr *traceT, fatal string) {
+	ni := len(b.Calls)
+	e := newEnv(&b.Cfg, ni, false, v)
+	tr = &traceT{ID: id, Cfg: b.Cfg, NI: ni}
+	outcome := map[int]string{}
+	wantCancel := false
+	for _, s := range b.Steps {
+		switch s.A {
+		case "rel":
+			outcome[s.C] = s.O
+		case "cancel":
+			wantCancel = true
+		}
+	}
+	defer func() {
+		if p := recover(); p != nil {
+			tr.Ev = append(tr.Ev, traceEv{E: "obs", Cs: []int{}, Os: []string{}, Kind: "goroutine-left-blocked", Cleaned: -1})
+		}
+	}()
+	synctest.Test(t, func(t *testing.T) {
+		if b.Steps[0].Pre {
+			tr.Ev = append(tr.Ev, traceEv{E: "cancel", Cs: []int{}, Os: []string{}})
+		}
+		e.start(b.Steps[0].Pre, 0)
+		synctest.Wait()
+		tr.Ev = append(tr.Ev, obsEv(e.observe()))
+		begun := func() (cs []int) {
+			e.mu.Lock()
+			defer e.mu.Unlock()
+			for c := 1; c <= ni; c++ {
+				if len(e.calls[c]) > 0 && !e.released[c] {
+					cs = append(cs, c)
+				}
+			}
+			return cs
+		}
+		for step := 0; step < 4*ni+8; step++ {
+			e.mu.Lock()
+			queued := len(e.queue)
+			e.mu.Unlock()
+			ready := begun()
+			var kinds []string
+			if queued > 0 {
+				kinds = append(kinds, "begin", "begin")
+			}
+			if len(ready) > 0 {
+				kinds = append(kinds, "rel", "rel")
+			}
+			if wantCancel {
+				kinds = append(kinds, "cancel")
+			}
+			if queued == 0 && len(ready) == 0 {
+				break
+			}
+			switch kinds[rng.Intn(len(kinds))] {
+			case "begin":
+				before := map[int]bool{}
+				for _, c := range ready {
+					before[c] = true
+				}
+				e.beginQueued(rng.Intn(queued))
+				synctest.Wait()
+				ev := traceEv{E: "beginc", Cs: []int{}, Os: []string{}}
+				for _, c := range begun() {
+					if !before[c] {
+						ev = traceEv{E: "begin", Cs: []int{c}, Os: []string{}}
+					}
+				}
+				tr.Ev = append(tr.Ev, ev)
+			case "cancel":
+				wantCancel = false
+				e.cancel(errCtxCause)
+				tr.Ev = append(tr.Ev, traceEv{E: "cancel", Cs: []int{}, Os: []string{}})
+			case "rel":
+				rng.Shuffle(len(ready), func(i, j int) { ready[i], ready[j] = ready[j], ready[i] })
+				n := 1 + rng.Intn(len(ready))
+				ev := traceEv{E: "rel", Cs: []int{}, Os: []string{}}
+				e.mu.Lock()
+				for _, c := range ready[:n] {
+					o := outcome[c]
+					if o == "" {
+						o = "ok"
+					}
+					e.released[c] = true
+					e.outErr[c] = e.makeErr(c, o)
+					ev.Cs = append(ev.Cs, c)
+					ev.Os = append(ev.Os, o)
+				}
+				e.mu.Unlock()
+				for _, c := range ready[:n] {
+					close(e.gates[c])
 				}
 				tr.Ev = append(tr.Ev, ev)
 			}
@@ -970,7 +1176,9 @@ func TestRace(t *testing.T) {
 	}
 	ring.VerifYield = nil
 	want := abs.EnvInt("VERIF_NTRACES", 200)
-	corrupt := abs.EnvInt("VERIF_CORRUPT", 0) // self-test: falsify one logged field
+	maxGroup := abs.EnvInt("VERIF_RACE_MAXGROUP", 6)       // at most this many simultaneous answers (bounds TLC's search for an explanation)
+	deferred := os.Getenv("VERIF_RACE_MODE") == "deferred" // o.Go holds what it is handed; the driver starts it in a seeded order
+	corrupt := abs.EnvInt("VERIF_CORRUPT", 0)              // self-test: falsify one logged field
 	rng := rand.New(rand.NewSource(abs.Seed()))
 	res := &abs.Result{}
 	// reservoir-sample eligible behaviours (deterministic for a seed)
@@ -1016,9 +1224,13 @@ func TestRace(t *testing.T) {
 		var groups [][]stepT
 		for _, s := range b.Steps[1:] {
 			switch {
+			case s.A == "cancel" && len(groups) > 0 && groups[len(groups)-1][0].A == "rel" && rng.Intn(3) == 0:
+				groups[len(groups)-1] = append(groups[len(groups)-1], s) // races with the answers of that group
 			case s.A == "cancel":
 				groups = append(groups, []stepT{s})
-			case s.A == "rel" && len(groups) > 0 && groups[len(groups)-1][0].A == "rel" && rng.Intn(4) != 0:
+			case s.A == "rel" && len(groups) > 0 && groups[len(groups)-1][len(groups[len(groups)-1])-1].A == "cancel":
+				groups = append(groups, []stepT{s})
+			case s.A == "rel" && len(groups) > 0 && groups[len(groups)-1][0].A == "rel" && len(groups[len(groups)-1]) < maxGroup && rng.Intn(4) != 0:
 				groups[len(groups)-1] = append(groups[len(groups)-1], s)
 			case s.A == "rel":
 				groups = append(groups, []stepT{s})
@@ -1030,7 +1242,16 @@ func TestRace(t *testing.T) {
 				racing++
 			}
 		}
-		tr, fatal := raceOne(t, b, groups, variantFor(n, abs.Seed(), 7), n+1)
+		v := variantFor(n, abs.Seed(), 7)
+		v.NilCleanup = false // the cleanup count is a logged field
+		var tr *traceT
+		var fatal string
+		if deferred {
+			v.Spawner = "deferred"
+			tr, fatal = raceDeferred(t, b, v, n+1, rng)
+		} else {
+			tr, fatal = raceOne(t, b, groups, v, n+1)
+		}
 		if fatal != "" {
 			res.Fatal = fatal
 			break
